@@ -167,6 +167,10 @@ def run_inst(spec, run):
             _clear_caches(ns)
             a = pl.build(ns, base, cenv)
             for r in added:
+                # the configurator is queried before it is extended: nothing cached on it may leak into the extension
+                a.ge_polyhedron
+                a.leafs()
+                a.default_prios
                 a = a.add(pl.build(ns, r, cenv))
             b = pl.build(ns, direct_spec, cenv)
             bad = []
